@@ -520,6 +520,195 @@ fn restart_case(
     None
 }
 
+//============ Part D =========================================================
+
+/// The REAL start-up path (`StartupManager::run_scheduler` + the real
+/// scheduler thread) on a directory left behind by a daemon that was killed
+/// with k tasks running - optionally with the start task itself among them.
+/// Afterwards nothing may be stuck in `running`, every recurring task must
+/// be scheduled, and the change committed before the stop must be published.
+fn real_startup_case(
+    r: &mut Report, args: &Args, k: usize, with_start_task: bool,
+    rng: &mut Rng,
+) -> Option<(String, String, Value)> {
+    use krill::server::manager::StartupManager;
+    let dir = args.work.join(format!("realstart{k}"));
+    let cfg = WorldCfg::new(&dir);
+    let mut w = World::create(cfg.clone());
+    for op in [
+        Op::AddCa { ca: "a".into(), parent: "ta".into(),
+            asn: "AS65000-AS65005".into(), v4: "10.0.0.0/16".into(),
+            v6: "".into() },
+        Op::Quiesce,
+        Op::AddCa { ca: "b".into(), parent: "a".into(), asn: "AS65001".into(),
+            v4: "10.0.0.0/24".into(), v6: "".into() },
+        Op::Quiesce,
+        Op::RoaDelta { ca: "b".into(), add: vec!["10.0.0.0/24 => 65001".into()],
+            remove: vec![] },
+        Op::Quiesce,
+    ] {
+        let out = hist::apply(&mut w, &op);
+        if !out.is_ok() {
+            r.inconclusive(format!("real start-up case setup: {out:?}"));
+            return None
+        }
+    }
+    let _ = hist::apply(&mut w, &Op::RoaDelta {
+        ca: "b".into(), add: vec!["10.0.0.0/24-25 => 65001".into()],
+        remove: vec![] });
+    let mut candidates = vec![
+        Task::RepublishIfNeeded, Task::RenewObjectsIfNeeded,
+        Task::SyncRepo { ca_handle: h("b"), ca_version: 0 },
+        Task::UpdateSnapshots, Task::RrdpUpdateIfNeeded,
+        Task::SyncRepo { ca_handle: h("a"), ca_version: 0 },
+    ];
+    rng.shuffle(&mut candidates);
+    for t in candidates.iter().take(k) {
+        w.krill.tasks().schedule(t.clone(), krill::server::mq::now())
+            .expect("schedule");
+    }
+    if with_start_task {
+        w.krill.tasks().schedule(Task::QueueStartTasks, krill::server::mq::now())
+            .expect("schedule start task");
+    }
+    w.advance_ms(1500);
+    let mut claimed: Vec<String> = vec![];
+    for _ in 0..k {
+        // never claim the start task here; it is claimed below
+        let key = w.pending().into_iter()
+            .filter(|p| p.0 <= w.queue_now_ms() && p.1 != "queue_start_tasks")
+            .map(|p| (p.1, p.2)).next();
+        if let Some((name, key)) = key {
+            if w.claim_only(&key) { claimed.push(name) }
+        }
+    }
+    if with_start_task {
+        let key = w.pending().into_iter()
+            .find(|p| p.1 == "queue_start_tasks").map(|p| p.2);
+        match key {
+            Some(key) if w.claim_only(&key) => {
+                claimed.push("queue_start_tasks".into())
+            }
+            _ => {
+                r.inconclusive("start task could not be claimed");
+                return None
+            }
+        }
+    }
+    r.distinct("real_start_k",
+               format!("{k}{}", if with_start_task { "+start" } else { "" }));
+    drop(w); // the "kill"
+
+    let wit = json!({"k": k, "with_start_task": with_start_task,
+                     "claimed": claimed, "part": "D"});
+    let rt = tokio::runtime::Builder::new_multi_thread().worker_threads(2)
+        .enable_all().build().expect("tokio");
+    let config = cfg.config();
+    let storage = StorageSystem::new(config.storage_uri.clone());
+    let view = StorageSystem::new(config.storage_uri.clone());
+    let mut startup = match StartupManager::new(
+        config, storage, rt.handle().clone()
+    ) {
+        Ok(s) => s,
+        Err(e) => { r.inconclusive(format!("startup: {e}")); return None }
+    };
+    if let Err(e) = startup.run_scheduler() {
+        return Some(("real-start-up-fails".into(),
+                     format!("run_scheduler on the crashed directory: {e}"),
+                     wit))
+    }
+    let (manager, pool) = match startup.promote() {
+        Ok(x) => x,
+        Err(e) => { r.inconclusive(format!("promote: {e}")); return None }
+    };
+    let state = |view: &StorageSystem| -> (Vec<(u128, String)>, Vec<String>) {
+        let kv = match view.open(Ident::from_str("tasks").unwrap()) {
+            Ok(kv) => kv, Err(_) => return (vec![], vec![]),
+        };
+        let l = |scope: &str| -> Vec<(u128, String)> {
+            kv.keys(Some(Ident::from_str(scope).unwrap()), "")
+                .unwrap_or_default().into_iter().filter_map(|k| {
+                    let (ts, name) = k.as_str().split_once('-')?;
+                    Some((ts.parse().ok()?, name.to_string()))
+                }).collect()
+        };
+        (l("pending"), l("running").into_iter().map(|x| x.1).collect())
+    };
+    let recurring = [
+        "all_cas_republish_if_needed", "all_cas_renew_objects_if_needed",
+        "update_stored_snapshots", "sync_a_with_parent_ta",
+        "sync_b_with_parent_a",
+    ];
+    // bounded progress: the real scheduler gets 45 s of wall time
+    let start = std::time::Instant::now();
+    let mut verdict: Option<(Vec<String>, Vec<String>)> = None;
+    let mut calm = 0;
+    while start.elapsed() < std::time::Duration::from_secs(45) {
+        let (pending, running) = state(&view);
+        let missing: Vec<String> = recurring.iter()
+            .filter(|n| !pending.iter().any(|p| &p.1 == *n)
+                        && !running.iter().any(|x| x == *n))
+            .map(|s| s.to_string()).collect();
+        let now = w_now_ms();
+        let due = pending.iter().filter(|p| p.0 <= now).count();
+        if running.is_empty() && missing.is_empty() && due == 0 {
+            calm += 1;
+            if calm >= 3 { verdict = Some((vec![], vec![])); break }
+        } else {
+            calm = 0;
+            verdict = Some((running, missing));
+        }
+        std::thread::sleep(std::time::Duration::from_millis(300));
+    }
+    let _ = manager;
+    pool.terminate();
+    drop(rt);
+    r.eval();
+    r.count("real_startups", 1);
+    match verdict {
+        Some((running, missing)) if running.is_empty() && missing.is_empty() => {}
+        Some((running, missing)) => {
+            let sig = if !missing.is_empty() {
+                "real-start-up:recurring-task-missing"
+            } else {
+                "real-start-up:task-stuck-running"
+            };
+            return Some((
+                format!("{sig}:{}", if with_start_task { "start-task-was-running" }
+                                    else { "k-running" }),
+                format!("daemon killed with {claimed:?} running; 45 s after \
+                         the real start-up (run_scheduler + scheduler \
+                         thread): still running {running:?}, recurring \
+                         tasks not scheduled {missing:?}"),
+                wit,
+            ))
+        }
+        None => { r.inconclusive("real start-up: no observation"); return None }
+    }
+    // the change committed before the kill is published
+    let w = World::open_raw(cfg);
+    if let Some(obs) = oracle::observe(&w) {
+        let vrps = obs.view.vrps();
+        if !vrps.contains(&(65001, "10.0.0.0/24".into(), 25)) {
+            return Some((
+                "real-start-up:committed-change-not-published".into(),
+                format!("VRPs {vrps:?} lack the ROA committed before the kill"),
+                wit,
+            ))
+        }
+    }
+    drop(w);
+    let _ = std::fs::remove_dir_all(&dir);
+    None
+}
+
+/// The queue's notion of now (real clock + verif offset) in ms.
+fn w_now_ms() -> u128 {
+    let real = std::time::SystemTime::now()
+        .duration_since(std::time::UNIX_EPOCH).unwrap().as_millis();
+    (real as i128 + krill::verif::queue_clock_offset_ms() as i128) as u128
+}
+
 //============ Part B =========================================================
 
 #[derive(Default)]
@@ -675,6 +864,14 @@ fn main() {
     let ks = [0usize, 1, 2, 3, 5];
     let my_k = ks[(args.shard as usize) % ks.len()];
     if let Some((sig, detail, wit)) = restart_case(&mut r, &args, my_k, &mut rng) {
+        r.violation(&sig, &detail, wit);
+    }
+    // Part D: the real start-up path on a killed daemon's directory
+    let with_start = args.shard % 2 == 1;
+    let kd = [1usize, 0, 2, 1, 3][(args.shard as usize / 2) % 5];
+    if let Some((sig, detail, wit)) =
+        real_startup_case(&mut r, &args, kd, with_start, &mut rng)
+    {
         r.violation(&sig, &detail, wit);
     }
     // Part A and B alternate until the budget is used
